@@ -1,12 +1,17 @@
 // Package c12 is the runtime-monitoring check of property C12: "Checkpoint
 // serialisation round-trips every supported value or fails loudly".
 //
-// A recursive, reflect-based generator builds values over ~35 statically
-// declared registered types and reflect-built compositions of them; every value
-// goes through the real serializer (compose.VerifSerialize / VerifDeserialize)
-// and is compared with the generator's ground truth. A sub-workload sends
-// generated values through a real interrupted and resumed graph with a
-// byte-only checkpoint store.
+// A recursive, reflect-based generator builds values over ~65 statically
+// declared registered types (among them structs with json tags and eino's own
+// schema.Message family) and reflect-built compositions of them (containers of
+// containers, pointers to containers, named containers, arrays, interface- and
+// pointer-keyed maps); every value goes through the real serializer
+// (compose.VerifSerialize / VerifDeserialize) and is compared with the
+// generator's ground truth. For a value inside the universe of the statement
+// an error is a violation, outside of it an error is fine; a different value
+// or a panic is a violation for every input (see NOTES.md, "Universe"). A
+// sub-workload sends generated values (every third time message-typed) through
+// a real interrupted and resumed graph with a byte-only checkpoint store.
 package c12
 
 import (
